@@ -35,6 +35,9 @@ def alphabet():
         assign("arr", S(V("i"), V("b")), sub=[V("i")], loops=[["i", C(0), V("n")]]),
         assign("<state>v", V("a"), sub=[V("n")]),
         yield_(V("a"), comp="a", time=S(V("<t>"), V("n"))),
+        # function symbols INSIDE expressions (a bare call on the right is turned into a call statement by the builder)
+        assign("b", S(V("a"), ["prod", [V("<dt>"), ["call", V("<func>f"), [V("b")], []]]])),
+        yield_(["call", V("<func>f"), [V("<state>y")], [["k", V("a")]]], comp="r"),
     ]
 
 
@@ -145,10 +148,34 @@ def make_dag(calls, ids=None):
     return DAGCode({"p0": ph}, "p0"), stmts
 
 
-def fuse_case(calls_a, calls_b, predname, handids=False):
+def _other_api_history(calls):
+    """A legal history before the method is even built: other public queries on (equal copies of) the expressions it
+    will contain -- what a user who pattern-matches or inspects expressions first does -- and, once built, on its
+    statements.  Their answers must not leak into later calls."""
+    from dagrt.utils import get_variables
+    for c in calls:
+        js = [c.get(k) for k in ("rhs", "c", "e", "time")] + list(c.get("sub") or []) + list(c.get("args") or []) \
+            + [e for _k, e in c.get("kw") or []]
+        for j in js:
+            if isinstance(j, list) and j and isinstance(j[0], str):
+                try:
+                    e = exprs.from_json(j)
+                    get_variables(e, include_function_symbols=True)
+                    get_variables(e)
+                except Exception:
+                    pass
+
+
+def fuse_case(calls_a, calls_b, predname, handids=False, history=False):
     from dagrt.transform import fuse_two_dags
+    if history:
+        _other_api_history(calls_a + calls_b)
     da, sa = make_dag(calls_a, IDS_A if handids else None)
     db, sb = make_dag(calls_b, IDS_B if handids else None)
+    if history:
+        for st in sa + sb:
+            st.get_read_variables()
+            st.get_written_variables()
     tag, fn = PREDS[predname]
     try:
         if fn is None:
@@ -277,12 +304,13 @@ def run(chk):
             pairs.append((rng.choice(sel), rng.choice(sel), rng.choice(["default", "default", "all", "only-a"])))
     cases, meta = [], []
     for k_, (a, b, pn) in enumerate(pairs):
-        fc = fuse_case(a, b, pn, handids=(k_ % 3 == 1))
+        fc = fuse_case(a, b, pn, handids=(k_ % 3 == 1), history=(k_ % 2 == 1))
         if "err" in fc:
             chk.violation("C16:fuse-raised:%s" % fc["err"].split(":")[0], "fuse_two_dags raised %s on [%s] + [%s] pred %s"
                           % (fc["err"], progs.show_prog(a), progs.show_prog(b), pn), {"a": a, "b": b, "pred": pn})
             continue
         fc["handids"] = (k_ % 3 == 1)
+        fc["history"] = (k_ % 2 == 1)
         cases.append(fc)
         meta.append((a, b, pn))
     # several phases: a phase that only one method has, with and without statements
@@ -313,7 +341,7 @@ def run(chk):
                             for x, _y in ren}) if clause == "AsAsked" else []
             chk.violation("C16:%s:pred=%s:%s" % (clause, pn, "+".join(kinds) or "-"),
                           "fuse_two_dags([%s], [%s], pred=%s) violates %s; renaming read off the result: %s"
-                          % (progs.show_prog(a), progs.show_prog(b), pn, clause, ren), {"a": a, "b": b, "pred": pn, "handids": c.get("handids", False)})
+                          % (progs.show_prog(a), progs.show_prog(b), pn, clause, ren), {"a": a, "b": b, "pred": pn, "handids": c.get("handids", False), "history": c.get("history", False)})
     chk.stage("tlc_static")
     dyn, dmeta = [], []
     for k, c in enumerate(cases):
@@ -353,7 +381,7 @@ def run(chk):
 
 def replay(chk, rep):
     c = rep["case"]
-    fc = fuse_case(c["a"], c["b"], c["pred"], handids=c.get("handids", False))
+    fc = fuse_case(c["a"], c["b"], c["pred"], handids=c.get("handids", False), history=c.get("history", False))
     for s in fc.get("fused", []):
         print("  ", s["id"], s["deps"], s["names"])
     hit = False
